@@ -456,9 +456,10 @@ def covered(cfg: CFG, p: CNode, dnodes) -> bool:
         st.extend(t for t, _ in x.succ)
     if not pre:
         return True
-    # post: p -> end avoiding D
+    # post: p -> end avoiding D.  Leaving p through its own exception edge means p's statement did not complete (a
+    # `xs.remove(a)` that raises has removed nothing): that is not a path on which p's effect happened
     seen = set()
-    st = [t for t, _ in p.succ]
+    st = [t for t, lab in p.succ if lab != 'exc']
     while st:
         x = st.pop()
         if is_end(x):
